@@ -47,7 +47,86 @@ def run_item(it):
     return "?"
 
 
+def main_threads():
+    """a fresh process in which the very first calls of ONE public operation are made by several threads at once (a table filled
+    on first use, a lazily compiled pattern ... must not be seen half-built by another caller).  Which operation: order seed mod 5.
+    The inputs of that operation are prepared beforehand in the main thread with the other operations."""
+    import threading, copy
+    from tucan.io import graph_from_molfile_text, graph_from_tucan, graph_to_molfile
+    from tucan.canonicalization import canonicalize_molecule
+    from tucan.serialization import serialize_molecule
+    items = json.load(open(sys.argv[1]))
+    seed = int(sys.argv[2])
+    kind = ["ser", "canon", "parse", "read", "write"][seed % 5]
+    first = [it for it in items if it["key"].endswith("|first")]
+    by_op = lambda op: [it for it in items if it["op"] == op and not it["key"].endswith("|many")][:10]
+    n = 8
+
+    def prepare(k):
+        """(item, callable returning the item's value) for thread k"""
+        out = []
+        try:
+            if kind == "ser":
+                for it in first:
+                    g = canonicalize_molecule(graph_from_tucan(it["arg"]))
+                    out.append((it, lambda g=g: serialize_molecule(g)))
+            elif kind == "canon":
+                for it in by_op("pipeline"):
+                    g = graph_from_molfile_text(it["arg"])
+                    out.append((it, lambda g=g: (lambda c: serialize_molecule(c) + "|" + dig(c))(canonicalize_molecule(g))))
+            elif kind == "write":
+                for it in by_op("write"):
+                    g = graph_from_molfile_text(it["arg"])
+                    out.append((it, lambda g=g: body(graph_to_molfile(g))))
+            else:
+                for it in (first + by_op("parse") if kind == "parse" else by_op("read")):
+                    out.append((it, lambda it=it: run_item(it)))
+        except BaseException:  # noqa: an input that cannot be prepared is left to the sequential workers
+            pass
+        return out
+
+    def guarded_call(f):
+        try:
+            return f()
+        except BaseException as ex:  # noqa
+            return "EXC:" + type(ex).__name__
+    prepared = [prepare(k) for k in range(n)]
+    rest = [it for it in items if it["op"] in ("norm", "pipeline", "parse") and not it["key"].endswith("|first")]
+    barrier = threading.Barrier(n)
+    sys.setswitchinterval(1e-6)
+    out, lock = [], threading.Lock()
+
+    def w(k):
+        r = random.Random(seed * 100 + k)
+        mine_first = prepared[k][k % max(1, len(prepared[k])):] + prepared[k][:k % max(1, len(prepared[k]))]     # every thread starts elsewhere
+        later = r.sample(rest, min(len(rest), 20))
+        try:
+            barrier.wait(timeout=60)
+        except Exception:
+            pass
+        mine = [{"key": it["key"], "val": guarded_call(f)} for it, f in mine_first]
+        mine += [{"key": it["key"], "val": run_item(it)} for it in later]
+        with lock:
+            out.extend(mine)
+    ts = [threading.Thread(target=w, args=(k,), daemon=True) for k in range(n)]
+    for t in ts:
+        t.start()
+    for t in ts:
+        t.join(300)
+    sys.setswitchinterval(0.005)
+    # ... and once more afterwards, single-threaded: what the race left behind stays for the rest of the process
+    for it, f in prepare(0):
+        out.append({"key": it["key"], "val": guarded_call(f)})
+    for rec in out:
+        print(json.dumps(rec))
+
+
 def main():
+    if os.environ.get("VERIF_LOGDEBUG") == "1":
+        import logging
+        logging.basicConfig(level=logging.DEBUG, handlers=[logging.NullHandler()])     # an application that logs at DEBUG level
+    if len(sys.argv) > 4 and sys.argv[4] == "threads":
+        return main_threads()
     items = json.load(open(sys.argv[1]))
     rng = random.Random(int(sys.argv[2]))
     order = list(range(len(items)))
